@@ -257,6 +257,26 @@ def transport_packet_info():
     return '[' + '; '.join(rows) + ']'
 
 
+def avdtp_channel_close_shape():
+    """avdtp.Stream.on_l2cap_channel_close forgets the transport channel on EVERY close (the
+    first statements, outside any branch), goes IDLE when CLOSING / ABORTING; on_close_command
+    and on_abort_command decide "done now" by testing that the channel is already gone."""
+    from bumble import avdtp
+    f = fn_ast(avdtp.Stream.on_l2cap_channel_close)
+    top = [u(x) for x in f.body if not isinstance(x, ast.If)]
+    clears_always = int('self.rtp_channel = None' in top)
+    branch = [x for x in f.body if isinstance(x, ast.If)]
+    must(len(branch) == 1 and u(branch[0].test) == 'self.state in (State.CLOSING, State.ABORTING)', 'state test in on_l2cap_channel_close')
+    goes_idle = int('self.change_state(State.IDLE)' in [u(x) for x in branch[0].body])
+    nested_clear = int(any('self.rtp_channel = None' == u(x) for b in branch for x in ast.walk(b) if isinstance(x, ast.Assign)))
+    tests = []
+    for fn in (avdtp.Stream.on_close_command, avdtp.Stream.on_abort_command):
+        g = fn_ast(fn)
+        ifs = [x for x in ast.walk(g) if isinstance(x, ast.If) and u(x.test) == 'self.rtp_channel is None']
+        tests.append(int(len(ifs) == 1 and 'self.change_state(State.IDLE)' in [u(y) for y in ifs[0].body]))
+    return [clears_always, nested_clear, goes_idle] + tests
+
+
 def att_item_loops():
     """att: the __post_init__ loops of the four response classes -> (op, guard, header, stride)
     with 0 standing for 'the length byte of the PDU' and -n for 'n + uuid_size'."""
@@ -330,6 +350,8 @@ def render():
            f'Definition transport_reject_shape : list Z := {zl(transport_reject_shape())}.',
            '  (* feed_data unknown-type block: first statement is self.reset(), last raises InvalidPacketError, statements; StreamPacketSource / pump catch it and continue *)',
            f'Definition tp_packet_info : Framer.table := {transport_packet_info()}.',
+           f'Definition avdtp_channel_close_shape : list Z := {zl(avdtp_channel_close_shape())}.',
+           '  (* rtp_channel cleared outside any branch, cleared inside the state branch, CLOSING/ABORTING -> IDLE, close / abort commands finish at once when the channel is gone *)',
            f'Definition credit_based_validation : list Z := {zl(credit_based_validation())}.',
            '  (* minimum MTU, minimum MPS, validated in: LE request, enhanced request, LE response, enhanced response *)',
            'Definition att_item_loop_shapes : list (Z * Z * Z * Z) := [' + '; '.join(f'({a}, {b}, {c}, {d if d >= 0 else f"({d})"})' for a, b, c, d in att_item_loops()) + '].',
